@@ -40,6 +40,7 @@ type bData struct {
 	coarse string // coarse fingerprint after the concurrent phase
 	armed  bool
 	ops    []string // ops enabled after the concurrent phase
+	skip   bool     // event not enabled in the seed state (nothing executed)
 }
 
 func (b bScen) name() string { return "sched:" + b.c.String() }
@@ -53,6 +54,12 @@ func (b bScen) scenario() *sched.Scenario {
 			x.Data = d
 			for _, op := range b.prefix {
 				s.Apply(op)
+			}
+			if strings.HasSuffix(b.ev, "-lastsent") && !(s.haveOrig && s.lastOrig != s.lastCR) {
+				d.skip = true // identical to the matching variant in this seed state
+				s.m.Down()
+				x.Thread("P", func() {})
+				return
 			}
 			// The event is prepared (identifiers chosen, monitors primed) before the
 			// threads start and evaluated after they have both finished, so that P
@@ -188,7 +195,7 @@ func runSched(run *report.Run) {
 				sc.Check = func(x *sched.Exec) []sched.Viol {
 					vs := inner(x)
 					d := x.Data.(*bData)
-					if len(vs) == 0 && !novel[d.coarse] && !expandedBelow(c, d.coarse, bfsDepth(run.Thorough())) {
+					if len(vs) == 0 && !d.skip && !novel[d.coarse] && !expandedBelow(c, d.coarse, bfsDepth(run.Thorough())) {
 						novel[d.coarse] = true
 						novelHere = append(novelHere, struct {
 							choices []int
